@@ -50,7 +50,7 @@ import oracle
 from ser import Ids, Ser, Unsupported, cst, rat, ser, deser, env_text, store_text, bits_to_float
 
 LEAN_MODULE = "Optyx.Props.C01"
-EXTRA_MODULES = ["Optyx.Props.PinsC01", "Optyx.Props.C01Source"]   # transcription anchors (harness/source_pins.py)
+EXTRA_MODULES = ["Optyx.Props.PinsC01", "Optyx.Props.C01Source", "Optyx.Props.OperatorsTie"]   # transcription anchors (harness/source_pins.py)
 THEOREMS = [
     "Optyx.Props.C01.evaluate_eq_denote",
     "Optyx.Props.C01.compile_total",
@@ -72,6 +72,9 @@ THEOREMS = [
     "Optyx.Props.BuildTie.vec_unique",
     "Optyx.Props.BuildTie.source_equations_solvable",
     "Optyx.Props.C01.compile_sound_of_source_equations",
+    "Optyx.Props.OperatorsTie.operators_spec",
+    "Optyx.Props.OperatorsTie.comparisons_spec",
+    "Optyx.Props.OperatorsTie.ensureExpr_text",
     "Optyx.Props.PinsC01.anchors",
 ]
 ASSUMPTIONS = [
